@@ -121,3 +121,57 @@ func init() {
 	regV("os/signal.Notify", func(m *Machine, g *Goroutine, a []Value) Value { return nil })
 	regV("os/signal.Stop", func(m *Machine, g *Goroutine, a []Value) Value { return nil })
 }
+
+// sync.Pool: Put remembers the item; Get hands out ANY remembered item or a new one (New, or nil without it) -
+// the choice is explored. (The real pool may also drop items at any time, which "a new one" covers.) Get and
+// Put are scheduling points and carry no happens-before edge.
+type syncPoolState struct{ items []Value }
+
+func (m *Machine) syncPoolOf(v Value, what string) *syncPoolState {
+	p, ok := v.(PtrVal)
+	if !ok || p.obj == nil {
+		panic(goPanic{msg: "nil pointer dereference (sync.Pool." + what + ")"})
+	}
+	if m.syncPools == nil {
+		m.syncPools = map[string]*syncPoolState{}
+	}
+	k := fmt.Sprintf("%p/%v", p.obj, p.path)
+	st := m.syncPools[k]
+	if st == nil {
+		st = &syncPoolState{}
+		m.syncPools[k] = st
+	}
+	return st
+}
+
+func init() {
+	regSP("(*sync.Pool).Put", func(m *Machine, g *Goroutine, a []Value) Value {
+		st := m.syncPoolOf(a[0], "Put")
+		if iv, ok := a[1].(IfaceVal); ok && iv.v == nil {
+			return nil // Put(nil) is ignored
+		}
+		st.items = append(st.items, a[1])
+		return nil
+	})
+	reg("(*sync.Pool).Get", func(m *Machine, g *Goroutine, c *callCtx) (Value, stepStatus) {
+		if m.maybePreempt(g) {
+			return nil, stBlocked
+		}
+		st := m.syncPoolOf(c.args[0], "Get")
+		if n := len(st.items); n > 0 {
+			if k := m.choose(n+1, "pool.get"); k < n {
+				it := st.items[k]
+				st.items = append(append([]Value{}, st.items[:k]...), st.items[k+1:]...)
+				return it, stNext
+			}
+		}
+		p := c.args[0].(PtrVal)
+		sv := getPath(p.obj.v, p.path).(StructVal)
+		fn, ok := sv.f[len(sv.f)-1].(FuncVal)
+		if !ok || (fn.fn == nil && fn.native == nil) {
+			return IfaceVal{}, stNext
+		}
+		m.callClosure(g, fn, nil, func(v Value) { c.deliver(v) })
+		return nil, stStay
+	})
+}
